@@ -304,7 +304,9 @@ async def episode(loop: vloop.VirtualLoop, ctx, trial: int) -> None:
     out = await attempt(loop, ctx, flow, resp, supp, air, script, rng, third, stagger, cancel)
     # both calls have ended: a new attempt may start - at once, or after every stated timer has run out
     # (not while frames of this attempt are still held up on the air: they would arrive in the middle of the next one)
-    settle = rng.choice((6.0, 6.0, 6.0, 0.0, 0.3, 2.0)) if systematic is None and all(p["kind"] != "delay" for p in script.plan.values()) else 6.0
+    # (nor while a neighbour's frames scheduled during this attempt are still to come: its offer would reach a
+    #  respondent that has just started to listen again - the pairing protocol at work, not a defect)
+    settle = rng.choice((6.0, 6.0, 6.0, 0.0, 0.3, 2.0)) if systematic is None and not third and all(p["kind"] != "delay" for p in script.plan.values()) else 6.0
     meta["retry_after_s"] = settle
     await asyncio.sleep(settle)
     await vloop.drain(loop, 6)
